@@ -223,6 +223,19 @@ func cmdGrpc(args []string) {
 			fail("annotations of the received error differ from the direct result", firstDiff(a, b))
 			continue
 		}
+		stOK := true
+		var origLeaves, gotLeaves []string
+		visitAll(e, func(x error) { origLeaves = append(origLeaves, fmt.Sprintf("%T", x)) })
+		visitAll(got, func(x error) { gotLeaves = append(gotLeaves, fmt.Sprintf("%T", x)) })
+		for k := range origLeaves {
+			if strings.Contains(origLeaves[k], "status.") && (k >= len(gotLeaves) || gotLeaves[k] != origLeaves[k]) {
+				stOK = false
+			}
+		}
+		if !stOK {
+			fail("a gRPC status error inside the handler's error arrives as another Go type", fmt.Sprintf("%v vs %v", origLeaves, gotLeaves))
+			continue
+		}
 		if a, b := fmt.Sprintf("%+v", direct), fmt.Sprintf("%+v", got); a != b {
 			fail("%+v of the received error differs from the direct result", firstDiff(a, b))
 			continue
